@@ -40,6 +40,14 @@ def load_all():
     quiet()
     for m in CPU_MODULES:
         try:
+            if m == "amoco.arch.z80.cpu_z80":
+                # amoco's Game Boy module (spec_gb) deletes ix/iy/... and the conditions 4-7 from the env module it
+                # shares with the Z80 module and moves the flag bits of the shared flag objects: the two cpu modules cannot
+                # live in one process.  The GB module (imported first) keeps the module objects it was built on; the Z80
+                # module is imported on fresh copies of env / asm / formats / spec_mostek, as in a process of its own.
+                import sys
+                for sub in ("env", "asm", "formats", "spec_mostek"):
+                    sys.modules.pop("amoco.arch.z80." + sub, None)
             _loaded[short(m)] = importlib.import_module(m)
         except Exception as e:  # recorded: C17 lists modules that do not import
             _failed[short(m)] = "%s: %s" % (type(e).__name__, str(e)[:120])
@@ -63,6 +71,68 @@ class ModeCtx:
 
 def reset_pending(dis):
     setattr(dis, "_disassembler__i", None)
+
+
+_junk = {}
+_junk_rng = {}
+
+
+def junk_blobs(dis, key):
+    """byte strings that begin with prefix bytes of the ISA and are not an instruction (the public call returns None on
+    them): decoding one is a legitimate piece of history that must leave nothing behind.  [] for ISAs without prefix specs."""
+    if key in _junk:
+        return _junk[key]
+    import random
+    import zlib
+    import c04
+    out = []
+    try:
+        specs, _ = c04.mode_specs(dis, key[1])
+    except Exception:
+        specs = []
+    pf = [s for s in specs if s.pfx is True]
+    if pf:
+        rng = random.Random(zlib.crc32(repr(key).encode()))
+        e, ml = dis.endian(), dis.maxlen
+        fixed = [bytes.fromhex(x) for x in ("6606", "4827", "f3481e", "6682c0", "66d6", "f3f1", "660f04ff", "660fff", "2e67ca", "660f00ff", "66f1", "f20f04")]
+        tries = 0
+        while len(out) < 40 and tries < 3000:
+            tries += 1
+            if fixed:
+                b = fixed.pop() + bytes(rng.getrandbits(8) for _ in range(4))
+            else:
+                b = b"".join(c04.spec_bytes(rng, rng.choice(pf), e, ml) for _ in range(rng.choice([1, 1, 2])))
+                b += bytes(rng.getrandbits(8) for _ in range(rng.randrange(1, 5)))
+            b = b[:ml]
+            reset_pending(dis)
+            try:
+                r = dis(b)
+            except Exception:
+                r = 1
+            reset_pending(dis)
+            if r is None and b not in out:
+                out.append(b)
+    _junk[key] = out
+    return out
+
+
+def junk_history(dis, key, p=0.2):
+    """with probability p (own random stream per key) decodes one junk blob through the public call and leaves the decoder
+    as that call left it; returns the blob's hex, or None when nothing was decoded"""
+    import random
+    import zlib
+    blobs = junk_blobs(dis, key)
+    if not blobs:
+        return None
+    rng = _junk_rng.setdefault(key, random.Random(zlib.crc32(repr(key).encode()) ^ 0x5EED))
+    if rng.random() >= p:
+        return None
+    b = rng.choice(blobs)
+    try:
+        dis(b)
+    except Exception:
+        pass
+    return b.hex()
 
 
 def get_pending(dis):
